@@ -399,14 +399,32 @@ func (x *exec) round(r *smt.Term) *smt.Term {
 		return x.tb.FloatC(f)
 	}
 	tb := x.tb
+	// rounding is a function: the same exact value rounds to the same float
+	if x.roundMemo == nil {
+		x.roundMemo = map[*smt.Term]*smt.Term{}
+	}
+	if m, ok := x.roundMemo[r]; ok {
+		return m
+	}
 	mag := x.floatMag
 	bound := new(big.Rat).SetInt(pow2(mag))
 	x.obligation(tb.Le(tb.Abs(r), tb.RatC(bound)), fmt.Sprintf("float: |value| <= 2^%d (magnitude bound of the float model)", mag), true)
 	e := x.fresh("fe", smt.Real)
 	eb := new(big.Rat).SetFrac(big.NewInt(1), pow2(52-mag))
 	x.assume(tb.And(tb.Le(tb.RatC(new(big.Rat).Neg(eb)), e), tb.Le(e, tb.RatC(eb))))
+	if x.floatRel {
+		// additionally the relative bound of round-to-nearest: |e| <= 2^-52*|r| + 2^-1000
+		// (half an ulp is <= 2^-53*|r| for normal results and <= 2^-1075 for subnormal ones)
+		rel := new(big.Rat).SetFrac(big.NewInt(1), pow2(52))
+		tiny := new(big.Rat).SetFrac(big.NewInt(1), pow2(1000))
+		x.assume(tb.Le(tb.Abs(e), tb.Add(tb.Mul(tb.RatC(rel), tb.Abs(r)), tb.RatC(tiny))))
+	}
 	x.floatErrVars++
-	return tb.Add(r, e)
+	res := tb.Add(r, e)
+	if x.spec == 0 {
+		x.roundMemo[r] = res
+	}
+	return res
 }
 
 // symConv converts symbolic scalar v to the basic kind dst.
@@ -429,6 +447,9 @@ func (x *exec) symConv(dst types.BasicKind, v sym) value {
 		tr := tb.Ite(tb.Ge(v.t, z), tb.ToInt(v.t), tb.Neg(tb.ToInt(tb.Neg(v.t))))
 		lim := new(big.Rat).SetInt(pow2(62))
 		x.obligation(tb.Le(tb.Abs(v.t), tb.RatC(lim)), "float->int conversion within 2^62", true)
+		if db, _ := kindBits(dst); db == 64 {
+			return x.mkSym(dst, tr) // |v| <= 2^62 holds from here on, so no wrap-around
+		}
 		return x.mkSym(dst, x.wrap(dst, tr, false))
 	case isFloatKind(src) && isFloatKind(dst):
 		return sym{dst, v.t}
